@@ -16,7 +16,7 @@ namespace Iora.Lifecycle
 
 /-- mirrors TcpEngine::connect / UdpEngine::connect: allocate the id, then enqueue; a closed queue is reported as an error
 (the id is burnt, never handed out). -/
-def apiConnect (tls named : Bool) (g : G) : G :=
+def apiConnect (tls : TlsReq) (named : Bool) (g : G) : G :=
   let sid := g.nextId
   let g := { g with nextId := g.nextId + 1 }
   if g.cmdsClosed then emit (.ret sid false) g
@@ -103,7 +103,7 @@ def drainFinish (g : G) : G :=
 /-! ## inputs -/
 
 inductive In
-  | apiConnect (tls named : Bool)
+  | apiConnect (tls : TlsReq) (named : Bool)
   | apiVia (lid : Lid) (k : Key)
   | apiClose (sid : Sid)
   | apiSend (sid : Sid)
@@ -231,7 +231,7 @@ def handshakeStep (sid : Sid) (as : List A) (g : G) : Bool × G × List A :=
   if rc = .ok then
     let (ha, as) := nextA as
     if ha = .fail then (false, closeNow sid .hsHookAfterOk g, as) else
-    let r := readAvail sid true as (announceConnect sid (setTls sid .opened g))
+    let r := readAvail sid true as (announceConnect sid g)
     (true, r.1, r.2)
   else
     let (ha, as) := nextA as
@@ -309,6 +309,36 @@ def onSession (sid : Sid) (i o h : Bool) (as : List A) (g : G) : G × List A :=
     if r3.1 then (r3.2.1, r3.2.2) else
     if o then writePending sid (tlsOpenOf sid r3.2.1) r3.2.2 r3.2.1 else (r3.2.1, r3.2.2)
 
+/-- THE ENVIRONMENT CONTRACT of T3 (an input hypothesis): the kernel does not hand payload bytes to a socket whose connect has not
+completed.  In model terms, for an event delivered to a plain client session that is still `connectPending`: after the part of
+onSession that can complete the connect (SO_ERROR probe, getsockopt/getpeername check), either the handler has returned, or the
+session is announced now, or no read is attempted (no EPOLLIN / EPOLLHUP first), or the first recv does not return data.
+The epoll mask the engine registers (EPOLLOUT while `connectPending`: `Gen.tcpConnectEpollMask`, `Gen.tcpUpdateInterest`) is what makes
+real kernels honour this: a completed connect is always reported (EPOLLOUT) together with the first readable data. -/
+def envOkSession (sid : Sid) (i o h : Bool) (as : List A) (g : G) : Bool :=
+  match g.table sid with
+  | none => true
+  | some s =>
+    if s.client && s.connectPending && s.tls == .none && !s.closed then
+      let r1 := sessEarly sid o as g
+      if r1.1 then true else
+      let r2 := sessConnect sid s o r1.2.2 r1.2.1
+      if r2.1 then true else
+      !i || h ||
+      (match r2.2.1.table sid with | some s' => s'.announced | none => true) ||
+      (r2.2.2.head? != some A.data)
+    else true
+
+/-- the contract as a predicate on (state before the step, input) -/
+def envOk (g : G) : In → Bool
+  | .ioSession sid i o h as => envOkSession sid i o h as g
+  | _ => true
+
+/-- every step of the history honours the contract -/
+def envOkHistory (stepf : G → In → G) : G → List In → Bool
+  | _, [] => true
+  | g, i :: r => envOk g i && envOkHistory stepf (stepf g i) r
+
 /-- the connect loop of doConnect over the `n` resolved addresses: `some true` = a socket is connecting/connected,
 `some false` = refused (the loop gives up at once), `none` = list exhausted. One answer per iteration: the result of
 connect(), or `fail` when socket() itself failed. -/
@@ -345,8 +375,9 @@ def tlsSetup (useTls named : Bool) (as : List A) (g : G) : Bool × G × List A :
   else (false, g, as)
 
 /-- mirrors TcpEngine::doConnect (the request's id is `g.cur`) -/
-def doConnect (tls named : Bool) (as : List A) (g : G) : G × List A :=
-  if g.cfg.tlsRefuse ∧ tls ∧ !g.cfg.cliCtx then (failConnect .tlsRefused g, as) else
+def doConnect (tls : TlsReq) (named : Bool) (as : List A) (g : G) : G × List A :=
+  -- F18: `cr.tls != None && !(cr.tls == Client && clientTls.enabled && _sslCli)` is refused
+  if g.cfg.tlsRefuse ∧ tls ≠ .none ∧ !(tls = .client ∧ g.cfg.cliCtx) then (failConnect .tlsRefused g, as) else
   let r := resolveStep named as g
   if r.1 then (r.2.2.1, r.2.2.2) else
   let c := connLoop r.2.1 r.2.2.2
@@ -354,14 +385,14 @@ def doConnect (tls named : Bool) (as : List A) (g : G) : G × List A :=
   | some false => (failConnect .refused r.2.2.1, c.2)
   | none => (failConnect .noSocket r.2.2.1, c.2)
   | some true =>
-    let useTls := tls && g.cfg.cliCtx
+    let useTls := decide (tls = .client) && g.cfg.cliCtx
     let t := tlsSetup useTls named c.2 r.2.2.1
     if t.1 then (t.2.1, t.2.2) else
     match t.2.1.cur with
     | none => ({ t.2.1 with stale := true }, t.2.2)
     | some sid =>
-      let g1 := insertCur (if useTls then .handshake else .none) none 0 t.2.1
-      if !tls then
+      let g1 := insertCur useTls none 0 t.2.1
+      if tls = .none then
         let k := connectCheck sid .immGsoFail .immPeerFail .immSoErr t.2.2 g1
         (k.2.1, k.2.2)
       else (g1, t.2.2)
@@ -531,11 +562,7 @@ def connectDo (as : List A) (g : G) : G × List A :=
   | .addrs (n + 1) =>
     let (c, as) := connLoop (n + 1) as
     if !c then (failConnect .uNoSocket g, as) else
-    match g.cur with
-    | none => ({ g with stale := true }, as)
-    | some sid =>
-      let g := insertCur .none none 0 g
-      (announceConnect sid g, as)
+    (connectNow none 0 true g, as)
   | _ => (failConnect .uResolveFail g, as)
 
 /-- mirrors UdpEngine::viaDo (`connected` is not bumped there) -/
@@ -554,7 +581,7 @@ def viaDo (lid : Lid) (k : Key) (as : List A) (g : G) : G × List A :=
     if capReached g then (failConnect .vCap g, p2.2) else
     match g.cur with
     | none => ({ g with stale := true }, p2.2)
-    | some sid => (viaIndex sid k (announceConnect sid (insertCur .none (some k) lid g) false), p2.2)
+    | some sid => (viaIndex sid k (connectNow (some k) lid false g), p2.2)
 
 /-- mirrors one iteration of the command loop of UdpEngine::process -/
 def dispatch (as : List A) (g : G) : G × List A :=
